@@ -547,7 +547,7 @@ func valueNonNilAt(v ssa.Value, at *ssa.BasicBlock, depth int) bool {
 }
 
 func checkC06(c *Ctx, r *Report) {
-	r.Rules = []string{"E1 no dropped error", "E1' no swallowed error", "E2 checked close of closers over a fallible sink", "D9 invalid settings end in an error", "E3 CLI failure edge removes the target and exits non-zero", "E2m closers over in-memory sinks completed before use", "E5 file references reach their reader as configured", "E1-dep dependency container writers (thorough)", "D9 required architecture (deb, rpm, apk) evaluated with literal tables modelled", "E1'-cell an error kept in a memory cell is not overwritten by a later call's result on a path the failure takes", "E6-changelog-stat the changelog file is checked with os.Stat before the lenient parser reads it", "E7-short-write direct writes to the external destination use the byte count", "valid-F13-width / valid-F14-name-fixpoint invalid settings are rejected, not reinterpreted (imported from C14, C15)"}
+	r.Rules = []string{"E1 no dropped error", "E1' no swallowed error", "E2 checked close of closers over a fallible sink", "D9 invalid settings end in an error", "E3 CLI failure edge removes the target and exits non-zero", "E2m closers over in-memory sinks completed before use", "E5 file references reach their reader as configured", "E1-dep dependency container writers (thorough)", "D9 required architecture (deb, rpm, apk) evaluated with literal tables modelled", "E1'-cell an error kept in a memory cell is not overwritten by a later call's result on a path the failure takes", "E6-changelog-stat the changelog file is checked with os.Stat before the lenient parser reads it", "E7-short-write direct writes to the external destination use the byte count", "valid-F13-width / valid-F14-name-fixpoint invalid settings are rejected, not reinterpreted (imported from C14, C15)", "E8-scanner-err a line scanner over a file or stream has its error consulted", "E1-built an error value that is built is used (returned, stored, passed on)", "E1'-defer a deferred closure stores into the function's error result only where that result is still nil (or from a value built on it)", "read-K-key-read the configured key file is read on every signing call (rule of C10)"}
 	r.Explanation = "Error-discipline analysis over go/ssa on the packaging call graph of all five packagers, the CLI, the signing helpers and the parser: (E1) every call whose callee returns an error has that result used, unless it falls under an enumerated idiom (reader-side Close, write into an in-memory buffer or hash decided by an interprocedural sink-root analysis, diagnostics, deferred cleanup Close discharged by E2, a named exception); (E1') from the failure edge of an `err != nil` test no path reaches a return with a nil error; (E2) every closer created over a fallible (caller-supplied) sink is closed/flushed, non-deferred and with its error used, before every return that may report success — or by a deferred closure that stores the Close error into the named result; (D9) the invalid cell of every finite setting evaluates to an error-only return set; (E3) the CLI's packaging-failure edge passes through os.Remove(target) and returns the error, and the root command exits with a non-zero constant. All paths and call sites of the code are covered, which is what 'every write index k' quantifies over; no fault is injected or executed."
 	r.Explanation += " (E2m) closers layered over an in-memory buffer are completed (non-deferred Close/Flush, also as the exit of a loop over a literal list of closers, also when the closer comes from a module factory) before every success-capable return and every read of the buffer. E1' also covers the error parameter of a tree-walk callback. (E5) a configuration field that names a file the packagers read may be assigned by the parser's environment expansion only if it is documented as expandable."
 	r.Explanation += " (D9-arch) nfpm.PrepareForPackager is evaluated for deb, rpm and apk with neither the general nor the format's own architecture set and every other setting unknown: every live return carries an error (lookups in map literals built in the function are modelled)."
@@ -817,9 +817,27 @@ func checkC06(c *Ctx, r *Report) {
 	checkErrorCellOverwrite(c, r, scope)
 	checkChangelogExists(c, r)
 	checkShortWrites(c, r, scope, sa)
+	checkScannerErr(c, r)
+	checkDeferredOverwrite(c, r)
+	checkBuiltErrorsUsed(c, r)
 	// an invalid setting that is silently reinterpreted instead of rejected:
 	// an epoch beyond the width it is stored in (rule of C14), a package name
 	// the file name's sanitiser would change (rule of C15)
+	// a key file that cannot be read fails the signing that refers to it: the
+	// file is read on every signing call, not remembered (rule of C10)
+	{
+		tmpK := newReport("tmp")
+		checkKeyRead(c, tmpK)
+		nK := 0
+		for _, o := range tmpK.Obls {
+			if o.Rule == "K-key-read" {
+				o.Rule = "read-K-key-read"
+				r.Obls = append(r.Obls, o)
+				nK++
+			}
+		}
+		r.Floor("read-K-key-read", nK, 3)
+	}
 	r.Floor("valid-F13-width", importRules(c, r, checkC14, "valid-", []string{"F13-width"}, nil), 1)
 	r.Floor("valid-F14-name-fixpoint", importRules(c, r, checkC15, "valid-", []string{"F14-name-fixpoint"}, nil), 1)
 	checkReferenceRewrite(c, r)
@@ -2702,4 +2720,221 @@ func checkShortWrites(c *Ctx, r *Report, scope map[*ssa.Function]bool, sa *sinkA
 		})
 	}
 	r.Count("direct_writes_to_external_writers", n)
+}
+
+// checkScannerErr (E8-scanner-err): bufio.Scanner ends its loop the same way
+// at the end of the input, at a read error and at a line longer than its
+// buffer; only Err tells them apart. A scanner over a file or stream whose Err
+// is never consulted turns a failed read into a silently truncated member.
+// Scanners over in-memory readers (strings, bytes) are out of scope: no read
+// can fail there.
+func checkScannerErr(c *Ctx, r *Report) {
+	n := 0
+	for _, fn := range c.ModFuncs {
+		k := 0
+		forEachInstr(fn, func(in ssa.Instruction) {
+			call, ok := in.(*ssa.Call)
+			if !ok || !calleeIs(call, "bufio", "", "NewScanner") || len(call.Call.Args) == 0 {
+				return
+			}
+			src := stripIface(call.Call.Args[0])
+			if isPtrToNamed(src.Type(), "strings", "Reader") || isPtrToNamed(src.Type(), "bytes", "Reader") || isPtrToNamed(src.Type(), "bytes", "Buffer") {
+				return
+			}
+			n++
+			k++
+			consulted := false
+			var visit func(v ssa.Value, depth int)
+			visit = func(v ssa.Value, depth int) {
+				if v.Referrers() == nil || depth > 3 {
+					return
+				}
+				for _, ref := range *v.Referrers() {
+					switch x := ref.(type) {
+					case ssa.CallInstruction:
+						if o := calleeObj(x); o != nil && o.Name() == "Err" {
+							consulted = true
+						}
+					case *ssa.Phi:
+						visit(x, depth+1)
+					case *ssa.Store:
+						// kept in a cell: loads of the cell
+						if al, isAl := x.Addr.(*ssa.Alloc); isAl && x.Val == v {
+							for _, r2 := range *al.Referrers() {
+								if ld, isLd := r2.(*ssa.UnOp); isLd {
+									visit(ld, depth+1)
+								}
+							}
+						}
+					}
+				}
+			}
+			visit(call, 0)
+			r.Check(consulted, "E8-scanner-err", fmt.Sprintf("%s: line scanner#%d over a stream has its error consulted", c.funcKey(fn), k), c.instrPos(call),
+				"Err is never called on this scanner: a read error or a line longer than the scanner's buffer ends the loop like the end of the input, and what was read so far is shipped as if it were the whole file")
+		})
+	}
+	r.Count("stream_scanners", n)
+	if n == 0 {
+		r.Pass("E8-scanner-err", "no line scanner over a file or stream in the module", "-", "bufio.NewScanner is applied to in-memory readers only")
+	}
+}
+
+// checkDeferredOverwrite (E1'-defer): a deferred closure that assigns the
+// enclosing function's error result runs after the body has settled that
+// result. It may only fill it in while it is still nil - `if cerr := f.Close();
+// cerr != nil && err == nil { err = cerr }` - or build on it (errors.Join(err,
+// cerr)); an unconditional `err = f.Close()` replaces the body's failure by
+// the close's nil.
+func checkDeferredOverwrite(c *Ctx, r *Report) {
+	n := 0
+	for _, fn := range c.ModFuncs {
+		forEachInstr(fn, func(in ssa.Instruction) {
+			d, ok := in.(*ssa.Defer)
+			if !ok {
+				return
+			}
+			mc, ok := d.Call.Value.(*ssa.MakeClosure)
+			if !ok {
+				return
+			}
+			cl, ok := mc.Fn.(*ssa.Function)
+			if !ok {
+				return
+			}
+			k := 0
+			forEachInstr(cl, func(i2 ssa.Instruction) {
+				st, ok := i2.(*ssa.Store)
+				if !ok {
+					return
+				}
+				fv, ok := st.Addr.(*ssa.FreeVar)
+				if !ok || !isErrorType(derefType(fv.Type())) {
+					return
+				}
+				// the captured cell is a named result of the enclosing function
+				isResult := false
+				for i, q := range cl.FreeVars {
+					if q == fv && i < len(mc.Bindings) {
+						if al, isAl := mc.Bindings[i].(*ssa.Alloc); isAl {
+							res := fn.Signature.Results()
+							for ri := 0; ri < res.Len(); ri++ {
+								if res.At(ri).Name() != "" && res.At(ri).Name() == al.Comment && isErrorType(res.At(ri).Type()) {
+									isResult = true
+								}
+							}
+						}
+					}
+				}
+				if !isResult {
+					return
+				}
+				if kk, isK := st.Val.(*ssa.Const); isK && kk.IsNil() {
+					return // recover-style reset, not an error lost to a call's result
+				}
+				n++
+				k++
+				// built on the old value
+				builds := false
+				var uses func(v ssa.Value, depth int)
+				uses = func(v ssa.Value, depth int) {
+					if depth > 4 || v == nil {
+						return
+					}
+					if ld, isLd := v.(*ssa.UnOp); isLd && ld.Op == token.MUL && ld.X == ssa.Value(fv) {
+						builds = true
+						return
+					}
+					if ins, isIn := v.(ssa.Instruction); isIn {
+						for _, op := range ins.Operands(nil) {
+							if op != nil && *op != nil {
+								uses(*op, depth+1)
+							}
+						}
+					}
+				}
+				uses(st.Val, 0)
+				// guarded by "result is nil"
+				guarded := false
+				for b := st.Block(); b != nil && !guarded; b = b.Idom() {
+					for _, p := range b.Preds {
+						ifi, isIf := p.Instrs[len(p.Instrs)-1].(*ssa.If)
+						if !isIf {
+							continue
+						}
+						bo, isBo := ifi.Cond.(*ssa.BinOp)
+						if !isBo {
+							continue
+						}
+						ld, isLd := bo.X.(*ssa.UnOp)
+						kn, isK := bo.Y.(*ssa.Const)
+						if !isLd || !isK || !kn.IsNil() || ld.X != ssa.Value(fv) {
+							continue
+						}
+						if bo.Op == token.EQL && p.Succs[0] == b && len(b.Preds) == 1 || bo.Op == token.NEQ && p.Succs[1] == b && len(b.Preds) == 1 {
+							guarded = true
+						}
+					}
+				}
+				r.Check(builds || guarded, "E1'-defer", fmt.Sprintf("%s: deferred store#%d into the error result keeps a failure already there", c.funcKey(fn), k), c.instrPos(st),
+					"the deferred closure assigns the function's error result without testing that it is still nil and without building on it: the body's failure (a read or write error) is replaced by this call's result, usually nil")
+			})
+		})
+	}
+	r.Count("deferred_result_stores", n)
+	if n == 0 {
+		r.Pass("E1'-defer", "no deferred closure stores into an error result", "-", "nothing to overwrite")
+	}
+}
+
+func isErrorType(t types.Type) bool {
+	return types.Identical(t, types.Universe.Lookup("error").Type())
+}
+
+// checkBuiltErrorsUsed (E1-built): an error value the code goes to the trouble
+// of building - a typed failure converted to error, fmt.Errorf, errors.New -
+// has a use. One without any is an assignment to a variable nobody reads
+// afterwards: typically a shadowed `err` inside a block while the function
+// returns the outer one, which is still nil.
+func checkBuiltErrorsUsed(c *Ctx, r *Report) {
+	n := 0
+	for _, fn := range c.ModFuncs {
+		k := 0
+		forEachInstr(fn, func(in ssa.Instruction) {
+			var v ssa.Value
+			switch x := in.(type) {
+			case *ssa.MakeInterface:
+				v = x
+			case *ssa.Call:
+				if !calleeIs(x, "fmt", "", "Errorf") && !calleeIs(x, "errors", "", "New") && !calleeIs(x, "errors", "", "Join") {
+					return
+				}
+				v = x
+			default:
+				return
+			}
+			if !isErrorType(v.Type()) {
+				return
+			}
+			n++
+			used := false
+			if refs := v.Referrers(); refs != nil {
+				for _, ref := range *refs {
+					if _, isDbg := ref.(*ssa.DebugRef); !isDbg {
+						used = true
+					}
+				}
+			}
+			if !used {
+				k++
+				r.Fail("E1-built", fmt.Sprintf("%s: error value built#%d has a use", c.funcKey(fn), k), c.instrPos(in),
+					"an error is built here and then used by nothing - it is assigned to a variable no later statement reads (a shadowed err, or an assignment just before the function returns another variable): the failure it describes is not reported")
+			}
+		})
+	}
+	r.Count("error_values_built", n)
+	r.Pass("E1-built", "error values built in the module have a use", "-", fmt.Sprintf("%d error values built (conversions to error, fmt.Errorf, errors.New); those without a use are listed separately", n))
+	if n < 100 {
+		r.Fail("instance-floor", "E1-built", "-", fmt.Sprintf("only %d error values built in the module (expected >= 100)", n))
+	}
 }
